@@ -87,6 +87,22 @@ AnCtf(G, v) ==
   LET X == IvNames(v) IN
   {<<w, ToSet(IvOn(v, An(RemoveIn(G, X), {w})))>> : w \in An(RemoveOut(G, X), {v.n})}
 VarKey(v) == <<v.n, ToSet(v.iv)>>
+\* Definition 4.2 (ancestral components induced by W* given X*, X* a subset of W*):
+\*   X*(W_t)   = V(||X*|| cap An(W_t))                      the conditioned variables among W_t's ancestors (base names)
+\*   A(W_t)    = An(W_t) in G with the edges out of X*(W_t) removed
+\*   components = the coarsest partition of the union of the A(W_t) into unions of them such that two sets that
+\*                share an element, or contain two nodes joined by a bidirected edge of G, lie in one block
+XStarOf(G, Xs, w) == {k[1] : k \in {VarKey(MinRef(G, x)) : x \in Xs} \cap AnCtf(G, w)}
+AncSetGiven(G, Xs, w) == AnCtf(RemoveOut(G, XStarOf(G, Xs, w)), w)
+\* (two copies of one variable in different worlds share their exogenous noise, which couples them at least as much as
+\*  a bidirected edge: sets containing copies of the same variable are linked)
+LinkedSets(G, A, B) == A \cap B # {} \/ \E a \in A, b \in B : a[1] = b[1] \/ {a[1], b[1]} \in G.b
+RECURSIVE MergeLinked(_, _)
+MergeLinked(G, Pp) ==
+  LET prs == {pr \in Pp \X Pp : pr[1] # pr[2] /\ LinkedSets(G, pr[1], pr[2])} IN
+  IF prs = {} THEN Pp
+  ELSE LET pr == CHOOSE pr \in prs : TRUE IN MergeLinked(G, (Pp \ {pr[1], pr[2]}) \cup {pr[1] \cup pr[2]})
+AncestralComponents(G, Ws, Xs) == MergeLinked(G, {AncSetGiven(G, Xs, w) : w \in Ws})
 
 \* ---------------------------------------------------------------- vocabulary (C06): single-world terms only
 RECURSIVE SingleWorldOnly(_)
